@@ -38,7 +38,7 @@ CLAIMS = {
           "Equality of the visited multiset with the live set for every history is not decided."),
  "C13": C("other", "orientation analysis of rounding (conservative vs liberal) + must-pass bracket of arena purges + def-use of masks",
           "C13 (second sentence only): purge rounds inwards / commit outwards at both levels with the right constant at every caller; purge mask ⊆ commit mask, cleared on commit; "
-          "commit before use; arena purge bracketed by an in-use claim and scheduled before release; live huge blocks only reset.",
+          "commit before use; arena purge bracketed by an in-use claim and scheduled before release; live huge blocks only reset. Also: a claimed arena range with uncommitted blocks is committed as a whole before use.",
           "The first sentence (all guarantees under every option combination) is a run-time matrix and NOT decided by this technique."),
  "C14": C("other", "CAS observed-clear/freshness conditions in bitmap.c + roll-back region analysis + claim/free agreement",
           "C14: bits or-ed in only after observed clear, all failure edges of the multi-field claim pass the roll-back, conditional undo of the initial field, bounded retry, "
